@@ -57,6 +57,20 @@ def confinement : List Confine := [
   -- the atomic store of notifyResolveNow; the OnceFunc closure reads it after the atomic load and before
   -- close(), which happens-before the poller's receive and hence before the next write (C15 wake-up LTS)
   ⟨"reflection.Resolver.resolveNow", ["reflection.Resolver.newResolveNow", "reflection.Resolver.newResolveNow#1", "reflection.Resolver.watch"], "atomic publish + once + channel close→receive (C15)"⟩,
+  -- transcoding: option closures run inside NewWebBridge; the request transcoder (one per Bind, i.e. per request) and the
+  -- JSON decoder (one per Unmarshal call / per request stream) are objects of ONE request, used by its receive side only
+  -- (Forward's request pump, or the main goroutine on the unary path: C18_backing_single_owner). The transcoder itself
+  -- (StandardTranscoder.mimeMarshalers etc.) is shared by all requests and must stay read-only after construction: any
+  -- write to it shows up in the table as an unprotected pair (seeded change C18-m7).
+  ⟨"grpcbridge.options.logger", ["grpcbridge.NewGRPCProxy", "grpcbridge.NewWebBridge", "grpcbridge.NewReflectionRouter", "grpcbridge.WithLogger#1"], "construction-time options, read-only afterwards"⟩,
+  ⟨"grpcbridge.options.forwarder", ["grpcbridge.NewGRPCProxy", "grpcbridge.NewWebBridge", "grpcbridge.WithForwarder#1"], "construction-time options, read-only afterwards"⟩,
+  ⟨"grpcbridge.proxyOptions.common", ["grpcbridge.funcOption.applyProxy"], "construction-time options"⟩,
+  ⟨"grpcbridge.bridgeOptions.common", ["grpcbridge.funcOption.applyBridge"], "construction-time options"⟩,
+  ⟨"grpcbridge.forwarderOptions.common", ["grpcbridge.funcOption.applyForwarder"], "construction-time options"⟩,
+  ⟨"transcoding.StandardTranscoderOpts.DefaultMarshaler", ["grpcbridge.WithDefaultMarshaler#1"], "construction-time options"⟩,
+  ⟨"transcoding.StandardTranscoderOpts.Marshalers", ["grpcbridge.WithMarshalers#1"], "construction-time options"⟩,
+  ⟨"transcoding.standardRequestTranscoder.queryFilter", ["transcoding.standardRequestTranscoder.queryParamFilter"], "per-request object, receive side single owner"⟩,
+  ⟨"transcoding.jsonDecoder.dec", ["transcoding.jsonDecoder.unmarshalList", "transcoding.jsonDecoder.unmarshalList#1", "transcoding.jsonDecoder.unmarshalMap", "transcoding.jsonDecoder.unmarshalMap#1", "transcoding.jsonDecoder.unmarshalMessage", "transcoding.jsonDecoder.unmarshalScalar"], "per-request object, receive side single owner"⟩,
   -- a builder local to buildPatternRoutes, never shared
   ⟨"routing.patternRouteBuilder.routes", ["routing.patternRouteBuilder.addBinding"], "function-local builder"⟩,
   -- gws ReadLoop goroutine (ParallelEnabled = false ⇒ OnMessage calls are sequential)
